@@ -81,12 +81,19 @@ type Ctx struct {
 	nontriv  bool
 	Verbose  io.Writer
 	Viol     *Violation
+	// OnCall, if set, runs at every Begin BEFORE the new call is recorded, so
+	// a Fail raised inside it is attributed to the call that just returned
+	// (C17's per-call output monitor on workloads written for other properties).
+	OnCall func()
 }
 
 type abortCase struct{}
 
 // Begin records a call at the API boundary before it is made.
 func (c *Ctx) Begin(obj, op string, args ...any) {
+	if c.OnCall != nil {
+		c.OnCall()
+	}
 	c.cur = opRec{obj, op, args}
 	c.ring[c.nops%traceRing] = c.cur
 	c.nops++
